@@ -876,7 +876,7 @@ let bNR = null;
 let bNF = null;
 if (join_matches.length == 1)
     [bNR, bNF, record_b] = join_matches[0];
-let up_fields = record_a;
+let up_fields = record_a.slice(); // UPDATE must not modify the caller's record
 __RBQLMP__variables_init_code
 if (join_matches.length == 1 && (__RBQLMP__where_expression)) {
     NU += 1;
@@ -888,7 +888,7 @@ if (!await query_context.writer.write(up_fields))
 
 
 const PROCESS_UPDATE_SIMPLE = `
-let up_fields = record_a;
+let up_fields = record_a.slice(); // UPDATE must not modify the caller's record
 __RBQLMP__variables_init_code
 if (__RBQLMP__where_expression) {
     NU += 1;
